@@ -50,7 +50,8 @@ static size_t build_valid(vp_rng_t* r, int mode, uint8_t* out, int tscf, int k, 
     size_t acf0 = o;
     for (int i = 0; i < k; i++) {
         uint8_t pl[64]; vp_rng_fill(r, pl, 64);
-        int L = (int)vp_rng_below(r, (uint64_t)(fd ? maxlen + 1 : 9)); if (!fd && L > 8) L = 8;
+        int L = (int)vp_rng_below(r, (uint64_t)(fd ? maxlen + 1 : (maxlen < 8 ? maxlen + 1 : 9))); if (!fd && L > 8) L = 8;
+        if (o + 16 + (size_t)((L + 3) & ~3) > 1500) break;              /* never more than the receive buffer takes */
         uint32_t id = (vp_rng_next(r) & 1) ? (uint32_t)vp_rng_next(r) & 0x7ff : (uint32_t)vp_rng_next(r) & 0x1fffffff;
         Avtp_Can_t* c = (Avtp_Can_t*)(out + o);
         Avtp_Can_Init(c);
@@ -163,7 +164,10 @@ static void lst_make_sequence(vp_rng_t* r, int mode, uint64_t idx, seq_t* s)
         case 16: name = "long-payload-claim"; n = build_valid(r, 3, b, tscf, 1, 64); Avtp_Can_SetAcfMsgLength((Avtp_Can_t*)(b + acfo), 68); break;
         case 17: name = "bit-flips"; mutate_bytes(r, b, n, 1 + (int)vp_rng_below(r, 6)); break;
         case 18: name = "header-flips"; mutate_bytes(r, b, acfo + 16 < n ? acfo + 16 : n, 1 + (int)vp_rng_below(r, 4)); break;
-        case 19: name = "many-messages"; n = build_valid(r, mode, b, tscf, 30, 8); break;
+        case 19: name = "many-messages"; n = build_valid(r, mode, b, tscf, 30, 8);
+                 /* or: as many valid messages as one datagram takes - data-less frames (16 bytes each, up to 93) or frames of 0..4 bytes */
+                 if (idx & 16) { name = "as-many-short-messages-as-fit"; memset(b, 0, sizeof b); n = build_valid(r, mode, b, tscf, 100, (idx & 64) ? 0 : 4); }
+                 break;
         case 20: name = "cf-length-beyond-datagram"; if (tscf) Avtp_Tscf_SetStreamDataLength((Avtp_Tscf_t*)(b + cfo), (uint16_t)(n + 40)); else Avtp_Ntscf_SetNtscfDataLength((Avtp_Ntscf_t*)(b + cfo), (uint16_t)((n + 40) & 0x7ff)); break;
         default: name = "acf-length-beyond-cf"; Avtp_Can_SetAcfMsgLength((Avtp_Can_t*)(b + acfo), (uint16_t)(30 + vp_rng_below(r, 400))); break;
         }
